@@ -26,13 +26,14 @@ theorem mstep_hist {s s1 : Shared} {g g1 : Gor} (hm : (s1, g1) ∈ mstep s g) :
     simp only [mstep, List.mem_singleton, Prod.mk.injEq] at hm
     obtain ⟨rfl, rfl⟩ := hm
     exact ⟨⟨[], (List.append_nil _).symm⟩, rfl, Or.inr ⟨a, rfl, rfl⟩⟩
-  | rTest =>
+  | rTest | uNext _ =>
     simp only [mstep] at hm
     obtain ⟨o, _, hx⟩ := mem_withObj hm
-    split at hx <;> simp only [List.mem_singleton, Prod.mk.injEq] at hx <;> obtain ⟨rfl, rfl⟩ := hx
-    · exact ⟨⟨[], (List.append_nil _).symm⟩, rfl, Or.inl rfl⟩
-    · exact ⟨⟨[_], rfl⟩, rfl, Or.inl rfl⟩
-  | nTest | uNext _ | uRes _ =>
+    split at hx <;> simp only [List.mem_singleton, Prod.mk.injEq] at hx <;> obtain ⟨rfl, rfl⟩ := hx <;>
+      first
+      | exact ⟨⟨[], (List.append_nil _).symm⟩, rfl, Or.inl rfl⟩
+      | exact ⟨⟨[_], rfl⟩, rfl, Or.inl rfl⟩
+  | nTest | uRes _ =>
     simp only [mstep] at hm
     obtain ⟨o, _, hx⟩ := mem_withObj hm
     simp only [List.mem_singleton, Prod.mk.injEq] at hx
